@@ -13,9 +13,9 @@ EXTENDS NgSearch, Json, IOUtils
 
 Rec == ndJsonDeserialize(IOEnv.TRACE)
 
-VARIABLES l, drifted, runid
+VARIABLES l, drifted, runid, heu
 
-tvars == <<vars, l, drifted, runid>>
+tvars == <<vars, l, drifted, runid, heu>>
 
 Matches(ev) == /\ ToInterp(cur', N) = ev.cur /\ backtrack' = ev.bt /\ choice' = ev.ch
                /\ Len(stack') = ev.stack /\ Len(hist') = ev.hist
@@ -25,13 +25,16 @@ StartFrom(ev) ==
   /\ cur' = GroundedInternal(TTs(ev.asts, N), N)
   /\ stack' = <<>> /\ hist' = <<>> /\ store' = NG!EmptyStore
   /\ backtrack' = FALSE /\ choice' = FALSE /\ out' = <<>> /\ done' = FALSE /\ steps' = 0 /\ last' = "start"
-  /\ runid' = ev.id
+  /\ runid' = ev.id /\ heu' = ev.heu
 
 \* index of the next "start" record after position i (Len + 1 if none)
 RECURSIVE NextStart(_)
 NextStart(i) == IF i > Len(Rec) THEN i ELSE IF Rec[i].kind = "start" THEN i ELSE NextStart(i + 1)
 
-TraceInit == /\ Rec[1].kind = "start" /\ l = 2 /\ drifted = {} /\ runid = Rec[1].id
+\* the pick of the iteration that leads to record i: logged for scripted heuristics, COMPUTED by the transcription for built-in ones
+PickFor(i) == IF heu = "Custom" \/ ~choice THEN <<Rec[i - 1].pick[1], Rec[i - 1].pick[2]>> ELSE HeuPick(heu, cur)
+
+TraceInit == /\ Rec[1].kind = "start" /\ l = 2 /\ drifted = {} /\ runid = Rec[1].id /\ heu = Rec[1].heu
              /\ adf = TTs(Rec[1].asts, N) /\ cur = GroundedInternal(TTs(Rec[1].asts, N), N)
              /\ stack = <<>> /\ hist = <<>> /\ store = NG!EmptyStore
              /\ backtrack = FALSE /\ choice = FALSE /\ out = <<>> /\ done = FALSE /\ steps = 0 /\ last = "start"
@@ -43,25 +46,25 @@ Consume ==
        [] ev.kind = "iter" /\ Rec[l - 1].kind = "start" ->
             \* the first observation of a run is the initial state itself
             /\ ToInterp(cur, N) = ev.cur /\ backtrack = ev.bt /\ choice = ev.ch /\ ev.stack = 0 /\ ev.hist = 0
-            /\ UNCHANGED <<vars, drifted, runid>> /\ l' = l + 1
+            /\ UNCHANGED <<vars, drifted, runid, heu>> /\ l' = l + 1
        [] ev.kind = "iter" ->
             /\ ~done /\ steps' = steps + 1
-            /\ <<Rec[l - 1].pick[1], Rec[l - 1].pick[2]>> \in Picks       \* the logged pick honours the contract
-            /\ Iterate(Rec[l - 1].pick)
+            /\ PickFor(l) \in Picks                \* the pick honours the contract
+            /\ Iterate(PickFor(l))
             /\ done' = FALSE /\ Matches(ev)
-            /\ l' = l + 1 /\ UNCHANGED <<drifted, runid>>
+            /\ l' = l + 1 /\ UNCHANGED <<drifted, runid, heu>>
        [] ev.kind = "done" ->
             /\ ~done /\ steps' = steps + 1
-            /\ Iterate(Rec[l - 1].pick)
+            /\ Iterate(PickFor(l))
             /\ done' = TRUE /\ out' = ev.out
-            /\ l' = l + 1 /\ UNCHANGED <<drifted, runid>>
+            /\ l' = l + 1 /\ UNCHANGED <<drifted, runid, heu>>
        [] OTHER -> FALSE
 
 \* give up on the current run: jump to the next start (always possible; costs one entry in drifted)
 Resync == /\ l <= Len(Rec) /\ Rec[l].kind # "start"
           /\ ~ENABLED Consume                      \* only when the observation cannot be matched
           /\ l' = NextStart(l) /\ drifted' = drifted \cup {runid}
-          /\ UNCHANGED <<vars, runid>>
+          /\ UNCHANGED <<vars, runid, heu>>
 
 TraceNext == Consume \/ Resync
 TraceSpec == TraceInit /\ [][TraceNext]_tvars
